@@ -1,7 +1,8 @@
 """Texts of MANIFEST.json (claimed level, note, technique) per property; properties absent here are not claimed."""
 
 _PYVC = ('contract-based deductive verification: sidecar contracts, verification conditions generated from the ast of the '
-         'real source on every run (pyvc), discharged by z3 then cvc5')
+         'real source on every run (pyvc), discharged by z3 (cvc5 for what z3 leaves open; in the thorough tier every discharged '
+         'obligation is re-checked by cvc5, a disagreement makes it undecided)')
 _BOUNDED = ('run-time contract (postcondition of the property) evaluated on the real code over a bounded-exhaustive and '
             'seeded-random domain (bounded stand-in, never counted as proved)')
 _ENC = 'pyvc encoding of the Python subset (DESIGN 2.3) and the solvers are trusted; '
